@@ -99,7 +99,7 @@ def classify(e):
     return type(e).__name__
 
 
-def run_real(text, host_data, timeout=5):
+def run_real_once(text, host_data, timeout=5):
     eng, root = engine()
     try:
         st = _PARSED.get(text)
@@ -121,9 +121,28 @@ def run_real(text, host_data, timeout=5):
         return ('err', classify(e))
 
 
+def size_of(f):
+    if isinstance(f, (list, tuple)):
+        return 1 + sum(size_of(x) for x in f)
+    if isinstance(f, dict):
+        return 1 + sum(size_of(x) for x in f.values())
+    return 1
+
+
+def run_real(text, make_host, timeout=5):
+    """a timeout is only believed when it repeats with a much longer allowance (loaded machine)"""
+    r = run_real_once(text, make_host(), timeout)
+    if r == ('err', 'Timeout'):
+        r = run_real_once(text, make_host(), 8 * timeout)
+    return r
+
+
 def run_ref(ref_data, ops):
     try:
-        return ('ok', seqref.run_ref(ref_data, ops))
+        r = seqref.run_ref(ref_data, ops)
+        if size_of(r) > 3000:
+            return ('big', None)       # beyond the engine's collection / memory limits (C08's subject)
+        return ('ok', r)
     except OOD:
         return ('ood', None)
     except RecursionError:
@@ -254,10 +273,11 @@ def show_model(m):
 def evaluate_case(value, ops, model_reply):
     """-> (failure or None, info) ; failure = (kind, what)"""
     text = seqref.render(ops)
-    host, refdata, _ = prepare(value)
-    real = run_real(text, host)
+    real = run_real(text, lambda: prepare(value)[0])
     _, refdata, _ = prepare(value)
     ref = run_ref(refdata, ops)
+    if ref[0] == 'big':
+        return None, dict(text=text, real=real, ref=('ood', None), model=model_reply)
     a_ref = agree_real_ref(real, ref)
     a_mod = agree_real_model(real, model_reply)
     info = dict(text=text, real=real, ref=ref, model=model_reply)
